@@ -1475,7 +1475,7 @@ func (c08) Gen(r *rand.Rand, tier string) []interface{} {
 		nmem = 200
 	}
 	for i := 0; i < nmem; i++ {
-		in := &c08In{Mode: "mem", SM: i%3 != 2, Component: i%3 == 2, Log: i%4 == 1, Senders: 2 + r.Intn(15), PerSender: 100 + r.Intn(400), MaxLen: 40, Seed: r.Int63n(1 << 30)}
+		in := &c08In{Mode: "mem", SM: i%4 < 2, Component: i%4 == 2, Log: i%5 == 1, Senders: 2 + r.Intn(15), PerSender: 100 + r.Intn(400), MaxLen: 40, Seed: r.Int63n(1 << 30)}
 		out = append(out, in)
 	}
 	// real transports
